@@ -177,7 +177,7 @@ func (c *Contract) allProps() []string {
 	seen := map[string]bool{}
 	var out []string
 	add := func(p string) {
-		if p != "" && !seen[p] && p != "captured" && p != "body" && p != "await" {
+		if p != "" && !seen[p] && p != "captured" && p != "body" && p != "await" && p != "config" {
 			seen[p] = true
 			out = append(out, p)
 		}
@@ -210,8 +210,16 @@ func (c *Contract) allProps() []string {
 }
 
 func (c *Contract) clauseProps(cl Clause) []string {
-	if cl.Props != nil {
-		return cl.Props
+	// the markers captured / body / await are not properties: a clause that carries only markers belongs to
+	// the properties of its contract
+	var ps []string
+	for _, p := range cl.Props {
+		if p != "captured" && p != "body" && p != "await" && p != "config" {
+			ps = append(ps, p)
+		}
+	}
+	if len(ps) > 0 {
+		return ps
 	}
 	return c.Props
 }
